@@ -283,18 +283,20 @@ def isinstance_term(m: Any, v: V, cls: V) -> Any:
     if isinstance(cls, VTuple):
         ts = [isinstance_term(m, v, c) for c in cls.items]
         return z3.Or(*ts) if ts else z3.BoolVal(False)
+    if isinstance(cls, VPy) and isinstance(cls.obj, tuple) and cls.obj[0] == "builtin":
+        cls = VCls(cls.obj[1])
     for h in m.world.isinstance_hooks:
         r = h(m, v, cls)
         if r is not None and r is not NotImplemented:
             return r
+    if isinstance(v, VOpt):
+        inner = v.sort.elem.wrap(v.sort.val(v.term))
+        return z3.And(z3.Not(v.sort.is_none(v.term)), isinstance_term(m, inner, cls))
     if not isinstance(cls, VCls):
         raise EngineError(f"isinstance against {cls!r}")
     c = cls.name
     if isinstance(v, VNone):
         return z3.BoolVal(c in ("NoneType", "object"))
-    if isinstance(v, VOpt):
-        inner = v.sort.elem.wrap(v.sort.val(v.term))
-        return z3.And(z3.Not(v.sort.is_none(v.term)), isinstance_term(m, inner, cls))
     if isinstance(v, VBool):
         return z3.BoolVal(c in ("bool", "int", "object"))
     if isinstance(v, VInt):
